@@ -215,8 +215,12 @@ func EvalString(this any, code string, emptyEnv bool) (object.Object, error) {
 		if ok {
 			maxDepth = evalState.MaxDepth // in case it's lower, carry that lower value.
 		}
-		evalState = NewBlankState()
-		evalState.MaxDepth = maxDepth
+		blank := NewBlankState()
+		blank.MaxDepth = maxDepth
+		if ok {
+			blank.Context = evalState.Context // same deadline/cancellation as the caller.
+		}
+		evalState = blank
 	} else {
 		if !ok {
 			return object.NULL, fmt.Errorf("invalid this: %T", this)
